@@ -43,8 +43,8 @@ def check(run):
         else:
             run.check(okm, 'R4', 'mss-from-path-mtu', name, fn.loc(mss[0].node), 'm_mss is not assigned from get_path_mtu(m_bound_to.address(), <peer address>) alongside the channel attach', 'm_mss = get_path_mtu(own, peer)')
             peer = q.render(fn, mss[0].site['rhs'])
-            okp = ('target.address()' in peer) or ('ep[0].address()' in peer) or ('remote' in peer)
-            run.check(okp, 'R4', 'mss-peer-address', name, fn.loc(mss[0].node), 'the MTU is not queried for the peer of this connection: ' + peer, 'queried for the peer\'s address')
+            okp = (('target.address()' in peer) or ('->ep[' in peer)) and 'visible_ep' not in peer and 'remote_endpoint' not in peer
+            run.check(okp, 'R4', 'mss-peer-address', name, fn.loc(mss[0].node), 'the MTU is not queried for the TRUE address of the peer (%s): the NAT-visible address is not the node the segments travel to' % peer, 'queried for the peer\'s true address')
         run.check(bool(cw) and all(q.linform(fn, x.site['rhs']) == ({'m_mss': 2}, 0) for x in cw) and all(any(q.precedes(fn, m.site, x.site) for m in mss) for x in cw) if mss else False,
                   'R4', 'cwnd-from-mss', name, fn.loc(), 'm_cwnd is not re-derived from the new m_mss', 'm_cwnd = m_mss * 2 after m_mss is set')
     engines.r2_writer_table(run, T + '::m_mss', {T + '::async_connect': 'connector', T + '::internal_connect': 'accepted side', T + '::close': 'reset to the default', T + '::socket': 'move constructor'},
